@@ -103,6 +103,15 @@ def runOpGrammar (op : String) (args : List String) : String :=
     match decTrees ts, decGrammar g, decLexicon l with
     | some ts, some g, some l => (match extractOK ts g l with | none => "ok" | some c => "FAIL " ++ c)
     | _, _, _ => bad
+  | "is_contextfree", [g] =>
+    match decGrammar g with
+    | some g => if isContextFree g then "t" else "f"
+    | none => bad
+  | "P.C06.cf", [ts, cf] =>
+    -- the grammar of a treebank is context-free exactly when every tree is continuous
+    match decTrees ts with
+    | some ts => if (cf == "t") == ts.all (fun t => gapDegree t == 0) then "ok" else "FAIL context-freeness-disagrees-with-the-trees"
+    | none => bad
   | "P.C07.rule", [reord, mo, f, l, vert, res] =>
     -- one rule (func f, lin l, vertical context) and the binarized grammar `res` the implementation built from it
     match decFunc f, decLin l, decMarkov mo, decVert vert, decGrammar res with
@@ -117,14 +126,15 @@ def runOpGrammar (op : String) (args : List String) : String :=
         okIf (chain.all fun (cf, cl) => (gramCount res cf cl .default) > 0) "chain-rule-missing-from-result",
         okIf (f.length > 3 || gramCount res f' l' .default > 0) "small-rule-not-kept"]
     | _, _, _, _, _ => bad
-  | "P.C07.unbin", [g, res] =>
+  | "P.C07.unbin", [reord, g, res] =>
     -- deterministic binarization of a whole grammar: unique labels, each with one fan-out
     match decGrammar g, decGrammar res with
     | some g, some res =>
       let binSyms := (symbols res).filter fun x => x.head? == some '@' && !(symbols g).contains x
       firstFail [
         okIf (binSyms.all fun x => (res.filter fun (fn, _) => fn.head? == some x).length == 1) "binarization-label-defined-twice",
-        okIf (binSyms.all fun x => ((res.filter fun (fn, _) => fn.head? == some x).flatMap fun (_, ls) => ls.map fun (l, _) => l.length).eraseDups.length ≤ 1) "binarization-label-with-two-fanouts"]
+        okIf (binSyms.all fun x => ((res.filter fun (fn, _) => fn.head? == some x).flatMap fun (_, ls) => ls.map fun (l, _) => l.length).eraseDups.length ≤ 1) "binarization-label-with-two-fanouts",
+        okIf (unbinOK (decReord reord) g res) "unbinarizing-does-not-recover-the-original-rules"]
     | _, _ => bad
   | "P.C08", [ts, g, l, roots] =>
     match decTrees ts, decGrammar g, decLexicon l with
@@ -133,6 +143,17 @@ def runOpGrammar (op : String) (args : List String) : String :=
       let _ := roots
       firstFail [okIf (nodeMassOK ts g) "per-label-count-not-node-count",
         okIf (massBalanced g l rs) "symbol-mass-not-balanced"]
+    | _, _, _ => bad
+  | "P.C08.file", [ts, gl, l] =>
+    -- the count field of a written PMCFG file: the same two balances hold of what the file says
+    match decTrees ts, decLines gl, decLexicon l with
+    | some ts, some gl, some l =>
+      match decPmcfg gl with
+      | none => "FAIL pmcfg-does-not-decode"
+      | some rules =>
+        let g : Grammar := rules.foldl (fun acc (f, lin, c) => acc.add f lin .default c) []
+        firstFail [okIf (nodeMassOK ts g) "per-label-count-not-node-count",
+          okIf (massBalanced g l (ts.map (·.fields.label))) "symbol-mass-not-balanced"]
     | _, _, _ => bad
   | "P.C09.pmcfg", [lig, g, l, gl, ll] =>
     match decGrammar g, decLexicon l, decLines gl with
